@@ -48,6 +48,10 @@ known("KF9-ad-sum-unchecked-when-one-head-grounded", ["C30"],
       "0.6::a; 0.6::b. query(a).   (answers a: 0.6; with query(b) added InvalidValue is raised)",
       match={"clause": "invalid-annotation-accepted", "invalid_kind": "ad-sum-one"})
 
+known("KF37-quoted-number-atom-unifies-with-number", ["C14"],
+      "=/2 (unify_value) decides by Term.signature, which strips the quotes of a quoted atom: the atom '1' and the integer 1 (and '1.0' and 1.0) have the same signature and unify, although no mgu exists; atom('1') still holds for the result and clause-head unification (clause index) keeps them apart",
+      "q :- '1' = 1. query(q).   (answers 1.0; atom('1') and integer(1) are both true, '1' == 1 fails)",
+      match={"clause": "eq-succeeds-on-non-unifiable", "numeric_atom": True})
 known("KF10-equal-terms-with-different-hashes", ["C18"],
       "objects that compare equal have different hashes: Constant.__eq__ (and Var.__eq__) compare the printed text while __hash__ hashes the value / name, so Constant(1) == Constant('1') == Term('1') and Var('X') == Term('X') with different hashes; Not('\\+',a) == Not('not',a) with different hashes",
       "hash(Constant(1)) != hash(Constant('1')) although Constant(1) == Constant('1'); hash(Not('\\+',a)) != hash(Not('not',a))",
